@@ -94,7 +94,7 @@ def gen_ufunc_case(rng):
         kw["dtype"] = ["dt", rng.choice(["float32", "float64", "float16"])]
     opt = None
     if sp != "op" and fn != "matmul" and rng.random() < 0.3:
-        opt = "out" if rng.random() < 0.5 else "out+where"
+        opt = rng.choice(["out", "out+where", "out_tensor", "out_tensor"])
     return {"prog": b.prog, "call": {"k": "call", "out": "res", "fn": fn, "sp": sp, "a": args, "kw": kw}, "opt": opt,
             "kinds": kinds, "mseed": rng.randrange(1 << 30)}
 
@@ -149,7 +149,7 @@ def _norm(x):
     return np.asarray(x)
 
 
-def _run(backend, case, untracked=False, out_proto=None, mask=None):
+def _run(backend, case, untracked=False, out_proto=None, mask=None, out_tensor=False):
     """Returns (result array, out array or None) or raises."""
     it = Interp(backend, use_npf=True)
     it.run(case["prog"], catch=False)
@@ -160,6 +160,9 @@ def _run(backend, case, untracked=False, out_proto=None, mask=None):
     if out_proto is not None:
         outarr = np.full(out_proto.shape, 7, dtype=out_proto.dtype)
         it.env["__out"] = outarr
+        if out_tensor and backend == "mg":
+            import mygrad as _mg
+            it.env["__out"] = _mg.tensor(outarr, constant=None if outarr.dtype.kind == "f" else True)
         kw["out"] = ["r", "__out"]
         if mask is not None:
             it.env["__mask"] = mask.copy()
@@ -171,6 +174,8 @@ def _run(backend, case, untracked=False, out_proto=None, mask=None):
                 it.exec(len(case["prog"]), call)
         else:
             it.exec(len(case["prog"]), call)
+    if out_tensor and backend == "mg" and out_proto is not None:
+        outarr = it.env["__out"].data
     return it.env[call["out"]], outarr, it
 
 
@@ -237,7 +242,7 @@ def run_case(case):
             w2 = None
         if w2 is not None:
             try:
-                g2, gout, _ = _run("mg", case, out_proto=want, mask=mask)
+                g2, gout, _ = _run("mg", case, out_proto=want, mask=mask, out_tensor=case["opt"] == "out_tensor")
                 compare("out=", gout, wout, viol, fn, case, cnt, "compared_out")
                 if not viol:
                     compare("out= result", g2, np.asarray(w2), viol, fn, case, cnt, "compared_out")
